@@ -475,25 +475,31 @@ pub fn array_reduce(
         (first, 1)
     };
 
+    // The accumulator lives only in this native frame between two callback calls (and in the
+    // caller's hands afterwards): keep it rooted across the next call's allocations.
+    let mut acc_guard = interp.guard_value(&accumulator);
+
     for i in start_index..length {
         if has_array_like_element(&arr, i) {
             let elem = get_array_like_element(&arr, i);
 
             let Guarded {
                 value: acc,
-                guard: _acc_guard,
+                guard: new_guard,
             } = interp.call_function(
                 callback.clone(),
                 JsValue::Undefined,
                 &[accumulator, elem, JsValue::Number(i as f64), this.clone()],
             )?;
             accumulator = acc;
+            acc_guard = new_guard.or_else(|| interp.guard_value(&accumulator));
         }
     }
 
-    // Accumulator is a derived value - no guard needed as it's either a primitive
-    // or an object from the array/callback which is already owned
-    Ok(Guarded::unguarded(accumulator))
+    Ok(Guarded {
+        value: accumulator,
+        guard: acc_guard,
+    })
 }
 
 pub fn array_find(
@@ -1301,6 +1307,9 @@ pub fn array_from(
     let _source_guard = interp.guard_value(&source);
     let _map_fn_guard = map_fn.as_ref().and_then(|m| interp.guard_value(m));
 
+    // Values produced by the map function (or by the source iterator) are held in a Rust Vec
+    // until the result array exists: root them in the result's guard meanwhile.
+    let guard = interp.heap.create_guard();
     let mut elements = Vec::new();
 
     match source {
@@ -1331,6 +1340,9 @@ pub fn array_from(
                     } else {
                         elem
                     };
+                    if let JsValue::Object(o) = &mapped {
+                        guard.guard(o.clone());
+                    }
                     elements.push(mapped);
                 }
             } else {
@@ -1408,7 +1420,10 @@ pub fn array_from(
                                     } else {
                                         elem
                                     };
-                                    elements.push(mapped);
+                                    if let JsValue::Object(o) = &mapped {
+                        guard.guard(o.clone());
+                    }
+                    elements.push(mapped);
                                     i += 1;
                                 } else {
                                     break;
@@ -1440,13 +1455,15 @@ pub fn array_from(
                 } else {
                     elem
                 };
-                elements.push(mapped);
+                if let JsValue::Object(o) = &mapped {
+                        guard.guard(o.clone());
+                    }
+                    elements.push(mapped);
             }
         }
         _ => {}
     }
 
-    let guard = interp.heap.create_guard();
     let arr = interp.create_array_from(&guard, elements);
     Ok(Guarded::with_guard(JsValue::Object(arr), guard))
 }
@@ -1572,6 +1589,8 @@ pub fn array_reduce_right(
         (elem, length as i64 - 2)
     };
 
+    let mut acc_guard = interp.guard_value(&accumulator);
+
     for i in (0..=start_index).rev() {
         let elem = arr
             .borrow()
@@ -1579,7 +1598,7 @@ pub fn array_reduce_right(
             .unwrap_or(JsValue::Undefined);
         let Guarded {
             value: result,
-            guard: _result_guard,
+            guard: result_guard,
         } = interp.call_function(
             callback.clone(),
             JsValue::Undefined,
@@ -1591,10 +1610,14 @@ pub fn array_reduce_right(
             ],
         )?;
         accumulator = result;
+        // keep the accumulator rooted across the next callback call
+        acc_guard = result_guard.or_else(|| interp.guard_value(&accumulator));
     }
 
-    // Accumulator is a derived value - no guard needed
-    Ok(Guarded::unguarded(accumulator))
+    Ok(Guarded {
+        value: accumulator,
+        guard: acc_guard,
+    })
 }
 
 pub fn array_flat(
